@@ -71,7 +71,7 @@ PROPS = {"C04": dict(
               "Zrnt.Proofs.C04.schema_types_legal", "Zrnt.Proofs.C04.schema_round_trip", "Zrnt.Proofs.C04.limits_agree_for_all_configs",
               "Zrnt.Proofs.C04.ssz_methods_agree", "Zrnt.Proofs.C04.known_deviations_are", "Zrnt.Proofs.C04.ssz_types_complete",
               "Zrnt.Proofs.C04.no_opaque_bodies", "Zrnt.Proofs.C04.checkType_sound_struct",
-              "Zrnt.Proofs.C04.checkType_sound_list"],
+              "Zrnt.Proofs.C04.checkType_sound_list", "Zrnt.Proofs.C04.readBitList_eq_decode"],
     modes=[dict(name="ssz")],
     level="proof",
     trusted_base=TB_COMMON + TB_SSZ,
